@@ -9,7 +9,7 @@ KINDS = ["downlink", "acted upon", "oversized frame was accepted"]
 
 def arithmetic_cases(rng, tier):
     cases = ["nfd none %d" % w for w in (0, 1, 0xFFFF, 0x8000)]
-    stride = 4001 if tier == "quick" else 7
+    stride = 4001 if tier == "quick" else 211      # thorough: ~6600 values of `last` x all 2^16 wire values (stride 7 took hours)
     bounds = [0, 0x10000, 0x20000, 0x7FFF0000, 0xFFFF0000, 0xFFFFFFFF] + [rng.below(0xFFFF) << 16 for _ in range(4)]
     for b in bounds:
         lo, hi = max(0, b - 70000), min(0xFFFFFFFF, b + 70000)
